@@ -1368,6 +1368,7 @@ Example sync_exact_nonvacuous :
   all_delegations (w_env Slash_ex_w1) A_hub <> [] /\
   delegated (w_env Slash_ex_w1) A_hub < booked Slash_ex_h /\
   delegated (w_env Slash_ex_w1) A_hub <= LIM /\
+  delegated (w_env Slash_ex_w1) A_hub * booked Slash_ex_h <= hs_bst (h_state Slash_ex_h) * D /\
   query_actual_state Slash_ex_w1 A_hub Slash_ex_h =
     Some (mkHubState 989999998585714287 990000000000000000 693000000 297000000 0 0 0 0).
 Proof. vm_compute. repeat split; discriminate. Qed.
@@ -1466,6 +1467,8 @@ Example group_charge_nonvacuous :
   new_withdraw_rate 700 D 1000 11 false = Some 988571428571428571 /\
   new_withdraw_rate 700 D 1000 11 true = Some 1008571428571428571 /\
   new_withdraw_rate 700 D 1000 0 false = Some D /\
+  new_withdraw_rate 5 D 0 3 false = Some 800000000000000000 /\
+  new_withdraw_rate 0 (9 * D / 10) 720 9 false = Some (9 * D / 10) /\
   (0 < 1000 /\ 11 <= 1000 /\ 11 <= LIM) /\ (0 < 1000 + 720 /\ 1700 <= LIM).
 Proof. vm_compute. repeat split; try reflexivity; discriminate. Qed.
 
